@@ -187,6 +187,43 @@ theorem ivset_max_value (s : IvSet) (hwf : WF s.ivs) :
     · rw [List.mem_singleton.1 hc] at hx; exact hx.2
 
 -- ---------------------------------------------------------------------------------------------
+-- union / difference (`set_operation`: one scan per interval of `other`, each scan starting at the
+-- index the previous one returned)
+
+/-- `union`: on success exactly the union; in every case (also when the limit stops it half-way, which
+    is the only possible failure) the result is well-formed, keeps everything of `self` and contains
+    nothing but elements of `self` and `other` -/
+theorem ivset_union_mem (s other : IvSet) (hs : WF s.ivs) (ho : WF other.ivs) :
+    WF (s.union other).1.ivs ∧ (s.union other).1.limit = s.limit ∧
+    ((s.union other).2 = .ok () → ∀ x, Mem (s.union other).1.ivs x ↔ Mem s.ivs x ∨ Mem other.ivs x) ∧
+    (∀ x, Mem s.ivs x → Mem (s.union other).1.ivs x) ∧
+    (∀ x, Mem (s.union other).1.ivs x → Mem s.ivs x ∨ Mem other.ivs x) ∧
+    ((s.union other).2 = .ok () ∨ (s.union other).2 = .error .limitExceeded) := by
+  obtain ⟨h1, h2, h3, h4, h5, h6⟩ := union_spec s other hs ho
+  refine ⟨h1, h2, ?_, h3, h4, h6⟩
+  intro hok x
+  constructor
+  · exact h4 x
+  · rintro (h | h)
+    · exact h3 x h
+    · exact h5 hok x h
+
+/-- `difference`: on success exactly the set difference; in every case the result is well-formed, a
+    subset of `self`, and keeps everything of `self` that is not in `other` -/
+theorem ivset_difference_mem (s other : IvSet) (hs : WF s.ivs) (ho : WF other.ivs) :
+    WF (s.difference other).1.ivs ∧ (s.difference other).1.limit = s.limit ∧
+    ((s.difference other).2 = .ok () → ∀ x, Mem (s.difference other).1.ivs x ↔ Mem s.ivs x ∧ ¬ Mem other.ivs x) ∧
+    (∀ x, Mem (s.difference other).1.ivs x → Mem s.ivs x) ∧
+    (∀ x, Mem s.ivs x → ¬ Mem other.ivs x → Mem (s.difference other).1.ivs x) ∧
+    ((s.difference other).2 = .ok () ∨ (s.difference other).2 = .error .limitExceeded) := by
+  obtain ⟨h1, h2, h3, h4, h5, h6⟩ := difference_spec s other hs ho
+  refine ⟨h1, h2, ?_, h3, h4, h6⟩
+  intro hok x
+  constructor
+  · intro h; exact ⟨h3 x h, h5 hok x h⟩
+  · rintro ⟨h, hn⟩; exact h4 x h hn
+
+-- ---------------------------------------------------------------------------------------------
 -- every operation sequence
 
 /-- the public mutating operations -/
@@ -267,6 +304,11 @@ example : WF [⟨1, 3⟩, ⟨5, 5⟩, ⟨9, 12⟩] := by
 example : IvSet.insert ⟨some 3, [⟨1, 3⟩, ⟨5, 5⟩, ⟨9, 12⟩]⟩ ⟨2, 8⟩ = .ok ⟨some 3, [⟨1, 12⟩]⟩ := by rfl
 /-- a new disjoint interval at the limit is refused -/
 example : IvSet.insert ⟨some 3, [⟨1, 3⟩, ⟨5, 5⟩, ⟨9, 12⟩]⟩ ⟨7, 7⟩ = .error .limitExceeded := by rfl
+/-- union of interleaved sets through the threaded scan hints -/
+example : IvSet.union ⟨none, [⟨1, 3⟩, ⟨9, 12⟩]⟩ ⟨none, [⟨0, 0⟩, ⟨4, 5⟩, ⟨11, 20⟩]⟩ = (⟨none, [⟨0, 5⟩, ⟨9, 20⟩]⟩, .ok ()) := by rfl
+/-- difference that splits, trims and deletes -/
+example : IvSet.difference ⟨none, [⟨1, 9⟩, ⟨12, 14⟩, ⟨20, 20⟩]⟩ ⟨none, [⟨3, 4⟩, ⟨8, 12⟩, ⟨19, 30⟩]⟩
+    = (⟨none, [⟨1, 2⟩, ⟨5, 7⟩, ⟨13, 14⟩]⟩, .ok ()) := by rfl
 /-- the split -/
 example : IvSet.remove ⟨some 5, [⟨1, 3⟩, ⟨5, 5⟩, ⟨9, 12⟩]⟩ ⟨10, 10⟩ = (⟨some 5, [⟨1, 3⟩, ⟨5, 5⟩, ⟨9, 9⟩, ⟨11, 12⟩]⟩, .ok ()) := by rfl
 example : RemoveLimitHit ⟨some 2, [⟨1, 9⟩]⟩ ⟨5, 5⟩ := ⟨⟨⟨1, 9⟩, by simp, by decide, by decide⟩, 2, rfl, by decide⟩
